@@ -283,3 +283,66 @@ Proof.
   unfold gc_pass. induction repos as [|[k v] l IH]; simpl; auto.
   destruct (String.eqb r k) eqn:Ek; auto. apply String.eqb_eq in Ek. subst. reflexivity.
 Qed.
+
+(* ---- tags stay unique through collections -------------------------------------------------------------------------- *)
+From Olareg Require Import IndexInv RegInv.
+
+Definition res_unique (ri : res index) : Prop := forall i, ri = Ok i -> unique (top i).
+
+Lemma sweep_blob_unique pol now blobs seen inidx st b :
+  res_unique (fst st) -> res_unique (fst (sweep_blob pol now blobs seen inidx st b)).
+Proof.
+  destruct st as [ri deleted]. unfold sweep_blob. simpl.
+  destruct (mem_str (fst b) seen); [auto|].
+  destruct (young pol now blobs (fst b) && negb (mem_str (fst b) inidx)); [auto|].
+  simpl. intros H i Hi. destruct ri as [i0| |]; simpl in Hi; try discriminate.
+  destruct (idx_has (fst b) i0).
+  - eapply rm_desc_unique; [apply H; reflexivity|exact Hi].
+  - inversion Hi; subst. apply H. reflexivity.
+Qed.
+
+Lemma fold_sweep_unique pol now blobs seen inidx l : forall st,
+  res_unique (fst st) -> res_unique (fst (fold_left (sweep_blob pol now blobs seen inidx) l st)).
+Proof. induction l as [|b r IH]; intros st H; simpl; auto. apply IH. apply sweep_blob_unique. exact H. Qed.
+
+Lemma prune_missing_unique blobs ri d : res_unique ri -> res_unique (prune_missing blobs ri d).
+Proof.
+  intros H i Hi. unfold prune_missing in Hi. destruct ri as [i0| |]; simpl in Hi; try discriminate.
+  destruct (assoc d blobs).
+  - inversion Hi; subst. apply H. reflexivity.
+  - eapply rm_desc_unique; [apply H; reflexivity|exact Hi].
+Qed.
+
+Lemma fold_prune_unique blobs l : forall ri, res_unique ri -> res_unique (fold_left (prune_missing blobs) l ri).
+Proof. induction l as [|d r IH]; intros ri H; simpl; auto. apply IH. apply prune_missing_unique. exact H. Qed.
+
+Theorem gc_repo_idx_ok E pol now rp : repo_idx_ok rp -> repo_idx_ok (gc_repo E pol now rp).
+Proof.
+  intros H. unfold gc_repo, repo_gc.
+  destruct (phase1 pol now (r_blobs rp) (r_index rp)) as [[kept subjects] inidx0].
+  destruct (mark E (r_blobs rp) (mark_fuel E (r_blobs rp) (r_index rp)) kept subjects [] [] inidx0) as [[seen inidx]|]; [|exact H].
+  destruct (fold_left (sweep_blob pol now (r_blobs rp) seen inidx) (r_blobs rp) (Ok (r_index rp), [])) as [ri deleted] eqn:Ef.
+  destruct (fold_left (prune_missing (r_blobs rp)) inidx ri) as [i'| |] eqn:Ep; try exact H.
+  unfold repo_idx_ok. simpl.
+  assert (Hr : res_unique ri).
+  { pose proof (fold_sweep_unique pol now (r_blobs rp) seen inidx (r_blobs rp) (Ok (r_index rp), [])) as Hs.
+    rewrite Ef in Hs. apply Hs. simpl. intros i Hi. inversion Hi; subst. exact H. }
+  exact (fold_prune_unique (r_blobs rp) inidx ri Hr i' Ep).
+Qed.
+
+Theorem gstep_idx_ok cfg pol E s g : IdxOK s -> IdxOK (fst (gstep cfg pol E s g)).
+Proof.
+  intros H. destruct g as [q|r|r d age|]; simpl.
+  - apply step_idx_ok. exact H.
+  - destruct (c_readonly cfg); [exact H|]. destruct (assoc r (st_repos s)) as [rp|] eqn:Er; [|exact H].
+    apply set_repo_idx; auto. unfold gc_one. destruct (c_kind cfg); apply gc_repo_idx_ok; [|apply reload_idx_ok]; eapply H; eauto.
+  - destruct (assoc r (st_repos s)) as [rp|] eqn:Er; [|exact H].
+    apply set_repo_idx; auto. unfold repo_idx_ok, age_blobs. simpl. eapply H; eauto.
+  - destruct (c_kind cfg); simpl.
+    + intros r0 rp0 Ha. simpl in Ha. discriminate.
+    + intros r0 rp0 Ha. simpl in Ha. rewrite assoc_map_snd in Ha.
+      destruct (assoc r0 (st_repos s)) as [rp|] eqn:Er; simpl in Ha; [|discriminate]. inversion Ha; subst.
+      unfold restart_repo. apply reload_idx_ok.
+      assert (H0 : repo_idx_ok (mkR (r_blobs rp) (r_index rp) (r_conv rp) [])) by (unfold repo_idx_ok; simpl; eapply H; eauto).
+      destruct (c_readonly cfg); [exact H0|]. unfold gc_one. destruct (c_kind cfg); apply gc_repo_idx_ok; [|apply reload_idx_ok]; exact H0.
+Qed.
